@@ -115,17 +115,29 @@ end
 
 def natText (n : Nat) : Str := (Nat.repr n).toList
 
-def Edge.text : Edge → Str
-  | .preceding none => "UNBOUNDED PRECEDING".toList
-  | .preceding (some n) => natText n ++ " PRECEDING".toList
-  | .following none => "UNBOUNDED FOLLOWING".toList
-  | .following (some n) => natText n ++ " FOLLOWING".toList
-  | .current => "CURRENT ROW".toList
+def kwPreceding : Str := " PRECEDING".toList
+def kwFollowing : Str := " FOLLOWING".toList
+def kwUnboundedPreceding : Str := "UNBOUNDED PRECEDING".toList
+def kwUnboundedFollowing : Str := "UNBOUNDED FOLLOWING".toList
+def kwCurrentRow : Str := "CURRENT ROW".toList
 
-def Frame.text (f : Frame) : Str :=
+/-- `Edge.__str__`: the number given, or UNBOUNDED only when no number is given -/
+def Edge.doc : Edge → Doc
+  | .preceding none => [.kw kwUnboundedPreceding]
+  | .preceding (some n) => [.num false (natText n), .kw kwPreceding]
+  | .following none => [.kw kwUnboundedFollowing]
+  | .following (some n) => [.num false (natText n), .kw kwFollowing]
+  | .current => [.kw kwCurrentRow]
+
+def Edge.text (e : Edge) : Str := flatten e.doc
+
+/-- `get_frame_sql` -/
+def Frame.doc (f : Frame) : Doc :=
   match f.hi with
-  | none => f.kind ++ ' ' :: f.lo.text
-  | some hi => f.kind ++ " BETWEEN ".toList ++ f.lo.text ++ " AND ".toList ++ hi.text
+  | none => .raw f.kind :: kws " " :: f.lo.doc
+  | some hi => .raw f.kind :: kws " BETWEEN " :: f.lo.doc ++ kws " AND " :: hi.doc
+
+def Frame.text (f : Frame) : Str := flatten f.doc
 
 /-! ### intervals -/
 
